@@ -121,6 +121,16 @@ def run(ctx):
     run_trees(ctx, _run_tree(ctx), n_random=900 if ctx.tier == "quick" else 20000, max_atoms=7 if ctx.tier == "quick" else 9,
               small_frac=0.5 if ctx.tier == "quick" else 1.0)
     _revin(ctx)
+    # pre / post / dev release literals (final-release environments)
+    ctx.stratum = "prelit"
+    MM.clear_caches()
+    rnd = ctx.rnd
+    cfg = MW.Cfg(prelit=True, extras=False, few_vars=["os_name"])
+    run_tree = _run_tree(ctx)
+    for _ in range(150 if ctx.tier == "quick" else 2500):
+        run_tree(MM.gen_marker_tree(rnd, cfg, 5))
+    MM.clear_caches()
+    ctx.stratum = "main"
 
 
 def replay(ctx, case):
